@@ -300,7 +300,7 @@ func (g *c02Gen) points(side string) c02Op {
 	n := g.pick(side)
 	var ps []sPoint
 	for k := 0; k < 1+g.r.Intn(2); k++ {
-		ps = append(ps, sPoint{Type: []string{"value", "description", "units"}[g.r.Intn(3)], Key: []string{"", "1"}[g.r.Intn(2)],
+		ps = append(ps, sPoint{Type: []string{"value", "description", "units"}[g.r.Intn(3)], Key: []string{"", "1", "2", "3"}[g.r.Intn(4)],
 			Time: g.tick(), VBits: math.Float64bits(float64(g.r.Intn(100))), Text: []string{"", "x", "söme"}[g.r.Intn(3)]})
 	}
 	return c02Op{side, sOp{Kind: "np", Node: n, Points: ps}}
@@ -454,7 +454,7 @@ func runC02(cfg *config) error {
 		cases = rp.Cases
 	} else {
 		r := rand.New(rand.NewSource(cfg.seed))
-		n := 8 * cfg.scale
+		n := 24 * cfg.scale
 		for i := 0; i < n; i++ {
 			cases = append(cases, c02GenCase(r, i, true))
 		}
